@@ -47,7 +47,8 @@ def tokenize(text):
         elif m.group(4) is not None:
             evs.append((EV_END, m.group(4), bs, be))
         elif m.group(5) is not None:
-            attrs = [(a.group(1), unescape(a.group(2) if a.group(2) is not None else a.group(3))) for a in _ATTR.finditer(m.group(6) or '')]
+            # attribute values stay raw (escaped), as in quick-xml: Attribute::decode_and_unescape_value resolves the references
+            attrs = [(a.group(1), a.group(2) if a.group(2) is not None else a.group(3)) for a in _ATTR.finditer(m.group(6) or '')]
             evs.append((EV_EMPTY if m.group(7) else EV_START, (m.group(5), attrs), bs, be))
         else:
             t = m.group(8)
@@ -211,13 +212,20 @@ def decoder_decode(ex, d, b):
     v = D(ex, b)
     if isinstance(v, Adt):
         return OK(Ref(Cell(StrV(v.fields[0].s))))
+    if isinstance(v, StrV):
+        # the raw bytes of an attribute value (Attribute.value): decoding does not resolve entity references
+        return OK(Ref(Cell(StrV(v.chars))))
     return OK(Ref(Cell(StrV(bytes(v.items).decode('utf-8')))))
 
 
 @nat('Attribute::decode_and_unescape_value', 'Attribute::unescape_value')
 def attribute_value(ex, r, *a):
     at = D(ex, r)
-    return OK(Ref(Cell(StrV(at.fields[1].chars))))
+    sv = at.fields[1]
+    if sv.is_concrete():
+        return OK(Ref(Cell(StrV(unescape(sv.s)))))
+    text, ph = _sym_text(ex, sv)
+    return OK(Ref(Cell(_mkp(ph, unescape(text)))))
 
 
 @nat('BytesText::unescape')
